@@ -145,9 +145,9 @@ func VP_C11_fat_mkdir_nested()     { c11FatMkdir(c11BackendFile, "/SUBDIR/NEWDIR
 func VP_C11_fat_mkdir_new_refuse() { c11FatMkdir(c11BackendRefuse, "/NEWDIR") }
 
 // VP_C11_fat_openfile_existing: OpenFile(existing file, arbitrary flags) and then Write on the handle.
-// On a read-only image: truncating a non-empty file must be refused by OpenFile itself (it has to
-// change the image); otherwise OpenFile may hand out a handle (FAT opens lazily) but then
-// Write must fail. Nothing is written either way.
+// On a read-only image: OpenFile with any of the write/create/append/truncate flags must return an
+// error (the statement; see KF-C11-1 for the inputs where it does not); if a handle is handed out
+// anyway, Write on it must fail. Nothing is written either way.
 func c11FatOpenExisting(kind int) {
 	fs, img, ro := c11FatFS(kind)
 	flag := vp.Int("flag")
@@ -156,11 +156,19 @@ func c11FatOpenExisting(kind int) {
 	vp.NoPanic()
 	f, err := fs.OpenFile("/FOO.TXT", flag)
 	if ro {
-		if flag&os.O_TRUNC != 0 {
-			if size != 0 {
-				vp.Assert(err != nil, "read-only: OpenFile with O_TRUNC on a non-empty file returns an error")
-				vp.Cover("read-only: truncation refused")
-			}
+		mustTouch := flag&os.O_TRUNC != 0 // the open itself has to change the image
+		if size == 0 {
+			mustTouch = false
+		}
+		if mustTouch {
+			vp.Assert(err != nil, "read-only: OpenFile with O_TRUNC on a non-empty file returns an error")
+			vp.Cover("read-only: truncation refused")
+		}
+		if flag&c11WriteFlags != 0 {
+			// KF-C11-1: FAT opens lazily: when the open itself does not have to touch the image
+			// (existing file; no truncation needed) OpenFile hands out a handle although write/append/create
+			// access was requested on a read-only image; only the later Write is refused.
+			vp.AssertUnless("KF-C11-1", !mustTouch, err != nil, "read-only: OpenFile for write/create/append/truncate returns an error")
 		}
 	}
 	if err == nil {
@@ -168,12 +176,14 @@ func c11FatOpenExisting(kind int) {
 		k := vp.Int("len")
 		vp.Assume(k >= 0)
 		vp.Assume(k <= 3)
-		n, werr := f.Write(data[:k])
 		if ro {
+			n, werr := f.Write(data[:k])
 			vp.Assert(werr != nil, "read-only: File.Write returns an error")
 			vp.Assert(n <= 0, "read-only: File.Write reports no bytes written")
 			vp.Cover("read-only: Write on the handle refused")
 		} else if flag&os.O_RDWR == 0 {
+			// (a real write through an O_RDWR handle on a read-write image belongs to other properties)
+			_, werr := f.Write(data[:k])
 			vp.Assert(werr != nil, "a handle not opened O_RDWR does not write")
 			vp.Assert(img.writes == 0, "a handle not opened O_RDWR wrote nothing")
 			vp.Cover("read-write image, read-only handle: Write refused")
@@ -217,7 +227,7 @@ func VP_C11_fat_remove_dir() {
 	fs, img, ro := c11FatFS(c11BackendFile)
 	vp.Unwind(40)
 	vp.NoPanic()
-	err := fs.Remove("/SUBDIR")
+	err := fs.Remove("SUBDIR")
 	vp.AllowPanic()
 	c11FatEnd(img, ro, err, "read-only: Remove of an empty directory returns an error")
 }
@@ -312,11 +322,11 @@ func VP_C11_fat_readers_interleaved() {
 	img.ro = true // reading must not write in any mode
 	vp.Unwind(40)
 	vp.NoPanic()
-	d1, err := fs.ReadDir("/")
+	d1, err := fs.ReadDir(".")
 	vp.Assert(err == nil, "ReadDir works")
 	vp.Assert(len(d1) == 2, "the root lists the file and the directory")
 	l1 := fs.Label()
-	st, err := fs.Stat("/FOO.TXT")
+	st, err := fs.Stat("FOO.TXT")
 	vp.Assert(err == nil, "Stat works")
 	vp.Assert(st.Size() == int64(vp.U32("foo.size")), "Stat reports the recorded size")
 	f, err := fs.OpenFile("/FOO.TXT", os.O_RDONLY)
@@ -325,7 +335,7 @@ func VP_C11_fat_readers_interleaved() {
 	_, _ = f.Read(buf)
 	_, _ = f.Seek(0, 0)
 	_, _ = fs.GetArchiveBit("/FOO.TXT")
-	_, _ = fs.ReadDir("/SUBDIR")
+	_, _ = fs.ReadDir("SUBDIR")
 	_ = fs.Type()
 	vp.Assert(img.writes == 0, "the readers wrote nothing")
 	if ro {
@@ -333,7 +343,7 @@ func VP_C11_fat_readers_interleaved() {
 		_ = fs.Remove("/FOO.TXT")
 		_, _ = fs.OpenFile("/NEW.TXT", os.O_CREATE|os.O_RDWR)
 		_ = fs.Rename("/FOO.TXT", "/BAR.TXT")
-		d2, err := fs.ReadDir("/")
+		d2, err := fs.ReadDir(".")
 		vp.Assert(err == nil, "ReadDir still works")
 		vp.Assert(len(d2) == len(d1), "same listing after the rejected mutators")
 		vp.Assert(d2[0].Name() == d1[0].Name(), "same first name after the rejected mutators")
@@ -345,4 +355,36 @@ func VP_C11_fat_readers_interleaved() {
 	_ = fs.Close()
 	vp.AllowPanic()
 	vp.Cover("readers done")
+}
+
+// Thorough tier: the remaining mutators on the backend whose own Writable() fails.
+func c11FatRefuseAll() {
+	for i := 0; i < 6; i++ {
+		fs, img, ro := c11FatFS(c11BackendRefuse)
+		vp.Unwind(40)
+		vp.NoPanic()
+		var err error
+		switch i {
+		case 0:
+			err = fs.Remove("/FOO.TXT")
+		case 1:
+			err = fs.Rename("/FOO.TXT", "/BAR.TXT")
+		case 2:
+			err = fs.SetLabel("NEWLABEL")
+		case 3:
+			err = fs.SetArchiveBit("/FOO.TXT", vp.Bool("set"))
+		case 4:
+			_, err = fs.OpenFile("/NEW.TXT", os.O_CREATE|os.O_RDWR)
+		default:
+			err = fs.Mkdir("/SUBDIR/NEWDIR")
+		}
+		vp.AllowPanic()
+		c11FatEnd(img, ro, err, "backend refuses Writable(): the mutator returns an error")
+	}
+}
+
+func VP_C11_fat_refuse_all() {
+	if vp.Thorough() {
+		c11FatRefuseAll()
+	}
 }
